@@ -2,7 +2,7 @@ SPECIFICATION Spec
 CONSTANTS
   Coords <- MCCoords
   Vals <- MCVals
-  Coefs <- MCCoefs
+  Coefs <- MCCoefsSmall
   MaxN = 4
   NVs = {1, 2}
   LinNV = {2}
